@@ -2325,6 +2325,30 @@ class CSRMatrix(SparseMatrix):
     elem_col_indices: Array
     row_starts: Array
 
+    @override
+    def __eq__(self, other: object) -> bool:
+        # Taggable.__eq__ would compare the tags only
+        return (
+            self is other
+            or (isinstance(other, CSRMatrix)
+                and type(self) is type(other)
+                and self.shape == other.shape
+                and self.dtype == other.dtype
+                and self.axes == other.axes
+                and self.tags == other.tags
+                and self.elem_values == other.elem_values
+                and self.elem_col_indices == other.elem_col_indices
+                and self.row_starts == other.row_starts))
+
+    @override
+    def __ne__(self, other: object) -> bool:
+        return not self.__eq__(other)
+
+    @override
+    def __hash__(self) -> int:
+        return hash((type(self), self.shape, self.dtype, self.axes, self.tags,
+                     self.elem_values, self.elem_col_indices, self.row_starts))
+
 
 @array_dataclass()
 class CSRMatmul(SparseMatmul):
